@@ -164,7 +164,7 @@ theorem step_acc (cfg : Cfg) (st : St) (e : Ev) (h : AccInv st) : AccInv (step c
       · simp only [doSend]
         apply checkSendBatch_ok
         obtain ⟨h1, h2⟩ := h
-        simp only [AccInv, qMsgs, qBytes, List.map_append, List.sum_append, List.map_cons, List.map_nil,
+        simp only [AccInv, enqueue, qMsgs, qBytes, List.map_append, List.sum_append, List.map_cons, List.map_nil,
           List.sum_cons, List.sum_nil] at *
         constructor <;> omega
   | cancel sid => simp only [step]; split; exact cancelSend_ok st sid h; exact h
